@@ -19,6 +19,7 @@ import (
 	"github.com/milvus-io/milvus/pkg/util/retry"
 
 	"github.com/zilliztech/milvus-cdc/core/api"
+	"github.com/zilliztech/milvus-cdc/core/pb"
 	"github.com/zilliztech/milvus-cdc/core/util"
 	"github.com/zilliztech/milvus-cdc/core/verifkit/ev"
 )
@@ -181,7 +182,18 @@ func c09Step(w *ChannelWriter, fd *fakeDown, cs c09Case, entries [][2]string, se
 	case "op":
 		_, _ = w.HandleOpMessagePack(ctx, opPack(v.TS, buildOp(cs.Kind, v)))
 	case "event":
-		_ = w.HandleReplicateAPIEvent(ctx, buildEvent(eventKinds[int(cs.Kind[0]-'0')], v))
+		e := buildEvent(eventKinds[int(cs.Kind[0]-'0')], v)
+		if c09SharedInfo != nil && (cs.Kind == "0" || cs.Kind == "1") {
+			// the channel manager puts ONE description of the collection (the pointer StartReadCollection was given) into
+			// the create-collection event and, later, into the drop-collection event of that collection
+			k := cs.SrcDB + "." + cs.Coll
+			if ci, ok := c09SharedInfo[k]; ok {
+				e.CollectionInfo = ci
+			} else {
+				c09SharedInfo[k] = e.CollectionInfo
+			}
+		}
+		_ = w.HandleReplicateAPIEvent(ctx, e)
 	case "dml":
 		outPack = dmlPack(v.TS, buildDML(cs.Kind, v, 1), buildDML("TimeTick", v, 2))
 		_, _, _ = w.HandleReplicateMessage(ctx, "tgt-ch", outPack)
@@ -408,9 +420,9 @@ type c09HStep struct {
 
 func c09HAlphabet(thorough bool) []c09HStep {
 	var out []c09HStep
-	ops := []struct{ g, k string }{{"op", "CreateIndex"}, {"op", "ReleaseCollection"}, {"event", "2"}, {"dml", "Insert"}}
+	ops := []struct{ g, k string }{{"op", "CreateIndex"}, {"op", "ReleaseCollection"}, {"event", "2"}, {"dml", "Insert"}, {"event", "0"}, {"event", "1"}}
 	if thorough {
-		ops = append(ops, struct{ g, k string }{"op", "Flush"}, struct{ g, k string }{"event", "1"}, struct{ g, k string }{"dml", "Delete"}, struct{ g, k string }{"op", "DropIndex"})
+		ops = append(ops, struct{ g, k string }{"op", "Flush"}, struct{ g, k string }{"event", "3"}, struct{ g, k string }{"dml", "Delete"}, struct{ g, k string }{"op", "DropIndex"})
 	}
 	for _, o := range ops {
 		for _, coll := range []string{"a", "b"} {
@@ -424,7 +436,12 @@ func c09HAlphabet(thorough bool) []c09HStep {
 	return out
 }
 
+// c09SharedInfo: per history, the collection descriptions shared by the collection-level events (nil outside histories)
+var c09SharedInfo map[string]*pb.CollectionInfo
+
 func c09HRun(hist []c09HStep) (string, int) {
+	c09SharedInfo = map[string]*pb.CollectionInfo{}
+	defer func() { c09SharedInfo = nil }()
 	fd := &fakeDown{}
 	w, _ := newVerifWriter(fd, "", nil)
 	var entries [][2]string
@@ -485,7 +502,7 @@ func TestVerifC09Histories(t *testing.T) {
 	res.Bounds["history_depth"] = depth
 	res.Bounds["alphabet"] = len(alpha)
 	res.Bounds["repetitions"] = reps
-	res.Rule = "every history of <= depth steps over {operation (create index, release collection, create-partition event, insert; thorough: flush, drop-collection event, delete, drop index) on other.a / other.b, UpdateNameMappings with one entry of {other.*->Z.*, other.a->X.b, other.a->Y.c, other.*->W.*}} on ONE real ChannelWriter; after every operation the routing database and the request names of every recorded call are compared with the reference mapping over the table as it is at that moment (later entry for a key replaces the earlier one), bookkeeping keys with the source names of the operations so far; every history is repeated (sync.Map order) and every repetition judged; non-trivial = histories with at least one operation whose names the table changes"
+	res.Rule = "every history of <= depth steps over {operation (create index, release collection, create-partition event, insert, create-collection event, drop-collection event - the two sharing one collection description, as the channel manager's events do; thorough: flush, drop-partition event, delete, drop index) on other.a / other.b, UpdateNameMappings with one entry of {other.*->Z.*, other.a->X.b, other.a->Y.c, other.*->W.*}} on ONE real ChannelWriter; after every operation the routing database and the request names of every recorded call are compared with the reference mapping over the table as it is at that moment (later entry for a key replaces the earlier one), bookkeeping keys with the source names of the operations so far; every history is repeated (sync.Map order) and every repetition judged; non-trivial = histories with at least one operation whose names the table changes"
 	idx := make([]int, 0, depth)
 	n := 0
 	var rec func()
